@@ -59,11 +59,26 @@ def base(x):
     return {'k': 'other', 'v': repr(x)[:80]}
 
 
+NORES = {'ok': False, 'reg': '', 'ix': 0}
+
+
+def resolved(x):
+    """what the object itself resolves to (NamedQubit.resolve_qubit), if it can be resolved without a
+    macro context: the object-level fact behind a name (a reference may hang off a stale register)"""
+    try:
+        r, i = x.resolve_qubit()
+        if isinstance(i, bool) or not isinstance(i, int) or abs(i) >= SMALL:
+            return NORES
+        return {'ok': True, 'reg': str(r.name), 'ix': i}
+    except Exception:
+        return NORES
+
+
 def arg(x):
     if isinstance(x, NamedQubit):
         if '[' in str(x.name):
-            return {'k': 'qubit', 'base': base(x.alias_from), 'idx': ix(x.alias_index)}
-        return {'k': 'qalias', 'v': str(x.name)}
+            return {'k': 'qubit', 'base': base(x.alias_from), 'idx': ix(x.alias_index), 'res': resolved(x)}
+        return {'k': 'qalias', 'v': str(x.name), 'res': resolved(x)}
     if isinstance(x, Register):
         return {'k': 'reg', 'v': str(x.name)}
     r = ix(x)
